@@ -21,8 +21,12 @@ func (x *searcher) checkProtocol(s, n *State, o buildOpts, res *buildResult) {
 		switch e.Kind {
 		case "RunDone":
 			runDone++
-			if i != len(res.Events)-1 {
-				bad("run-done-not-last", fmt.Sprintf("RunDone is event %d of %d", i+1, len(res.Events)))
+			// RunDone comes after the requested target's last event (other targets may still be
+			// finishing when a cycle error cuts the build short)
+			for _, later := range res.Events[i+1:] {
+				if later.Label == o.Target {
+					bad("run-done-before-requested-target-finished", fmt.Sprintf("event %s %s after RunDone", later.Kind, later.Label))
+				}
 			}
 			if e.Err != es(res.RunErr) {
 				bad("run-done-wrong-error", fmt.Sprintf("RunDone carried %q, Run returned %q", e.Err, es(res.RunErr)))
